@@ -29,6 +29,10 @@ hypothesis is met for every `t : i64`:
     only covers the upper end.  For subnormal products the conversion result is 0 either way (|x·10^9| < 1), so the
     *absolute* bound `≤ u|x·10^9| + 1` still holds for real binary32, but that is outside what is proved here.
 `mono`, `zero`, `e9` hold for binary32 round-to-nearest-even without any range condition.
+UPDATE: the caveat is now discharged in Lean for the concrete kernel-transparent rounding `Rrtk.Soft.rne32`
+(`Rrtk/SoftFloat.lean`): `Rrtk/Thm/Lemmas/C18Soft.lean` re-derives theorems 1–5 at `RQ rne32` with NO rounding hypothesis
+(`*_binary32`), proving the range side conditions above from the integrality of `t`, the finiteness (`< 2^128`) of every
+intermediate result, and the subnormal case of `quantity_to_time_bound`.  The abstract theorems below are kept unchanged.
 Division by zero never occurs (`c1e9 ≠ 0`); `RQ` gives `x / 0 = rn 0`, which is irrelevant here.
 
 Helper lemmas live in `Rrtk.Thm.C18.Rounding`; the property theorems are directly in `Rrtk.Thm.C18`.
